@@ -12,6 +12,9 @@ import (
 	"fmt"
 	"io"
 	"net/http/httptest"
+	"os"
+	"os/exec"
+	"path/filepath"
 	"reflect"
 	"strings"
 	"testing"
@@ -671,50 +674,49 @@ func TestC11(t *testing.T) {
 		}
 	}
 	// channel-returning methods (WebSocket only): an error from the handler reaches the caller as an
-	// error with a nil channel, also when the handler returned a live channel next to it
-	for _, tb := range tables() {
-		if tb.name != "none" && tb.name != "same-code-both-sides" {
-			continue
-		}
-		cn, err := dial("ws", tb)
-		if err != nil {
-			t.Errorf("setup ws/%s: %v", tb.name, err)
-			exhaustive = false
-			continue
-		}
-		for si, sp := range speciesList {
-			_, wire := model(tb, si)
-			for _, msg := range msgs[:2] {
-				for oc := ocNil; oc <= ocErrWithValue; oc++ {
-					id := fmt.Sprintf("species=%s table=%s msg=%q shape=(<-chan,error) outcome=%s transport=ws", sp.name, tb.name, msg, outcomeNames[oc])
-					input := map[string]interface{}{"species": sp.name, "table": tb.name, "msg": msg, "shape": "(<-chan int,error)", "outcome": outcomeNames[oc], "transport": "ws", "wire_code": int(wire)}
-					var ch <-chan int
-					var got error
-					var panicked interface{}
-					func() {
-						defer func() { panicked = recover() }()
-						ch, got = cn.api.ChanErr(si, msg, oc)
-					}()
-					c.Case(id, true, "ws/chan-"+outcomeNames[oc])
-					c.Sample(input)
-					switch {
-					case panicked != nil:
-						c.Violate("ws", input, "%s: client call panicked: %v", id, panicked)
-					case oc == ocNil && (got != nil || ch == nil):
-						c.Violate("ws", input, "%s: handler returned a channel and no error, caller got channel=%v err=%v", id, ch != nil, got)
-					case oc != ocNil && got == nil:
-						c.Violate("ws", input, "%s: handler returned an error but the caller got nil (channel=%v)", id, ch != nil)
-					case oc != ocNil && ch != nil:
-						c.Violate("ws", input, "%s: value return is a non-nil channel, want the zero value on error (err %v)", id, got)
-					case oc != ocNil && got.Error() != sp.make(msg).Error():
-						if je, ok := got.(*jsonrpc.JSONRPCError); ok && je.Message != sp.make(msg).Error() {
-							c.Violate("ws", input, "%s: generic error whose Message %q differs from the handler's", id, trunc(je.Message))
-						}
-					}
+	// error with a nil channel, also when the handler returned a live channel next to it. The
+	// phase runs in a child process: a defect here can crash the client process from a library
+	// goroutine (F13 did), and that has to be reported as a finding about the input, not to take
+	// the enumerator down.
+	{
+		evf := filepath.Join(t.TempDir(), "chan-events.jsonl")
+		cmd := exec.Command(os.Args[0], "-test.run", "^TestC11ChanChild$", "-test.timeout", "600s")
+		cmd.Env = append(os.Environ(), "C11_CHAN_CHILD="+evf)
+		out, runErr := cmd.CombinedOutput()
+		var last chanEvent
+		if raw, err := os.ReadFile(evf); err == nil {
+			for _, line := range bytes.Split(raw, []byte("\n")) {
+				var ev chanEvent
+				if len(line) == 0 || json.Unmarshal(line, &ev) != nil {
+					continue
+				}
+				switch ev.Kind {
+				case "start":
+					last = ev
+				case "case":
+					c.Case(ev.ID, true, ev.Class)
+					c.Sample(ev.Input)
+				case "viol":
+					c.Violate("ws", ev.Input, "%s", ev.Msg)
+				case "setup":
+					t.Errorf("%s", ev.Msg)
+					exhaustive = false
 				}
 			}
 		}
-		cn.close()
+		if runErr != nil {
+			var key []string
+			for _, l := range strings.Split(string(out), "\n") {
+				if strings.HasPrefix(l, "panic:") || strings.HasPrefix(l, "fatal error:") || strings.Contains(l, "go-jsonrpc.(") {
+					key = append(key, strings.TrimSpace(l))
+				}
+				if len(key) >= 4 {
+					break
+				}
+			}
+			c.Violate("ws", last.Input, "the client process crashed while making channel-returning calls (last case started: %s): %v: %s", last.ID, runErr, strings.Join(key, " | "))
+			exhaustive = false
+		}
 	}
 	c.Extra("uncertain_value_form_marshalable_content_lost", probeLost)
 	c.Extra("uncertain_value_form_marshalable_content_kept", probeKept)
@@ -727,4 +729,77 @@ func TestC11(t *testing.T) {
 		"value form and in pointer form under two codes, a pointer to a type registered in value form only (itself unregistered), plus a value-form marshalable probe) x 8 messages (empty, ascii, escaping-heavy, U+0001, U+2028, 3-byte, 4-byte, 4 KiB) x "+
 		"{shape error: err; shape (T,error): err, err with non-zero value}, and the nil outcome once per species and shape; one server+client per "+
 		"(table, transport); each call compared with a table-lookup reference model; plus channel-returning methods over ws (tables none/same x species x 2 messages x {channel, error, channel+error})", len(transports), len(speciesList)))
+}
+
+// chanEvent is one line of the channel phase's event file (child process -> parent).
+type chanEvent struct {
+	Kind  string                 `json:"kind"` // start | case | viol | setup
+	ID    string                 `json:"id,omitempty"`
+	Class string                 `json:"class,omitempty"`
+	Input map[string]interface{} `json:"input,omitempty"`
+	Msg   string                 `json:"msg,omitempty"`
+}
+
+// TestC11ChanChild runs the channel-returning-method phase of TestC11 in a process of its own.
+func TestC11ChanChild(t *testing.T) {
+	evf := os.Getenv("C11_CHAN_CHILD")
+	if evf == "" {
+		t.Skip("runs only as a child of TestC11")
+	}
+	f, err := os.Create(evf)
+	if err != nil {
+		t.Fatal(err)
+	}
+	defer f.Close()
+	emit := func(ev chanEvent) {
+		b, _ := json.Marshal(ev)
+		f.Write(append(b, '\n'))
+	}
+	viol := func(input map[string]interface{}, format string, a ...interface{}) {
+		emit(chanEvent{Kind: "viol", Input: input, Msg: fmt.Sprintf(format, a...)})
+	}
+	msgs := messages()
+	for _, tb := range tables() {
+		if tb.name != "none" && tb.name != "same-code-both-sides" {
+			continue
+		}
+		cn, err := dial("ws", tb)
+		if err != nil {
+			emit(chanEvent{Kind: "setup", Msg: fmt.Sprintf("setup ws/%s: %v", tb.name, err)})
+			continue
+		}
+		for si, sp := range speciesList {
+			_, wire := model(tb, si)
+			for _, msg := range msgs[:2] {
+				for oc := ocNil; oc <= ocErrWithValue; oc++ {
+					id := fmt.Sprintf("species=%s table=%s msg=%q shape=(<-chan,error) outcome=%s transport=ws", sp.name, tb.name, msg, outcomeNames[oc])
+					input := map[string]interface{}{"species": sp.name, "table": tb.name, "msg": msg, "shape": "(<-chan int,error)", "outcome": outcomeNames[oc], "transport": "ws", "wire_code": int(wire)}
+					var ch <-chan int
+					var got error
+					var panicked interface{}
+					emit(chanEvent{Kind: "start", ID: id, Input: input})
+					func() {
+						defer func() { panicked = recover() }()
+						ch, got = cn.api.ChanErr(si, msg, oc)
+					}()
+					emit(chanEvent{Kind: "case", ID: id, Class: "ws/chan-" + outcomeNames[oc], Input: input})
+					switch {
+					case panicked != nil:
+						viol(input, "%s: client call panicked: %v", id, panicked)
+					case oc == ocNil && (got != nil || ch == nil):
+						viol(input, "%s: handler returned a channel and no error, caller got channel=%v err=%v", id, ch != nil, got)
+					case oc != ocNil && got == nil:
+						viol(input, "%s: handler returned an error but the caller got nil (channel=%v)", id, ch != nil)
+					case oc != ocNil && ch != nil:
+						viol(input, "%s: value return is a non-nil channel, want the zero value on error (err %v)", id, got)
+					case oc != ocNil && got.Error() != sp.make(msg).Error():
+						if je, ok := got.(*jsonrpc.JSONRPCError); ok && je.Message != sp.make(msg).Error() {
+							viol(input, "%s: generic error whose Message %q differs from the handler's", id, trunc(je.Message))
+						}
+					}
+				}
+			}
+		}
+		cn.close()
+	}
 }
